@@ -455,6 +455,27 @@ impl FramedReader {
         self.buffer = ReadBuffer::new();
     }
 
+    /// Parse and drop every complete frame that is already buffered, without reading from the
+    /// transport. Such frames were received before the caller transmitted its next request,
+    /// so they cannot be the reply to it.
+    pub(crate) fn discard_buffered_frames(
+        &mut self,
+        decode_level: DecodeLevel,
+    ) -> Result<(), RequestError> {
+        loop {
+            match self.parser.parse(&mut self.buffer, decode_level.frame) {
+                Ok(Some(frame)) => {
+                    tracing::warn!("discarding unsolicited frame: {:?}", frame.header);
+                }
+                Ok(None) => return Ok(()),
+                Err(err) => {
+                    self.parser.reset();
+                    return Err(err);
+                }
+            }
+        }
+    }
+
     pub(crate) async fn next_frame(
         &mut self,
         io: &mut PhysLayer,
